@@ -725,6 +725,39 @@ def r19g(ctx):
         raise AnalysisError("R19g: no Table method hands a coordinate parameter to a row")
 
 
+def r19i(ctx):
+    """Every named range that can be looked up is listed.
+
+    Renaming a table re-targets "the named ranges that point to it": they are found by listing all named ranges of the document and
+    filtering by table name.  The listing and the lookup by name must therefore search the same places — document-wide
+    `table:named-expressions` and the sheet-scoped ones inside a `table:table` alike (`descendant::`).  Rule: the queries of
+    Element.get_named_ranges and Element.get_named_range start with the same axis and path.
+    """
+    repo = ctx.repo
+    ctx.rule("R19i", "get_named_ranges (listing, used by the rename) and get_named_range (lookup) search the same path", floor=1)
+    fa, fb = repo.func("Element.get_named_ranges"), repo.func("Element.get_named_range")
+
+    def paths(f):
+        out = set()
+        for c in walk_no_nested(f.node):
+            if isinstance(c, ast.Call) and call_name(c) in ("get_elements", "get_element", "_filtered_element", "_filtered_elements", "xpath") and c.args:
+                a0 = c.args[0]
+                v = repo.fold(a0, f.module)
+                if not isinstance(v, str) and isinstance(a0, ast.JoinedStr) and a0.values and isinstance(a0.values[0], ast.Constant):
+                    v = a0.values[0].value  # the constant head of an f-string: path up to the first predicate
+                if isinstance(v, str):
+                    out.add(v.split("[")[0])
+        return out
+
+    pa, pb = paths(fa), paths(fb)
+    ok = bool(pa) and pa == pb and all(p.startswith("descendant::") or p.startswith("//") for p in pa)
+    ctx.instance("R19i", f"{fa.file}:{fa.ident}", f"listing searches {sorted(pa)}, lookup searches {sorted(pb)}", ok=ok, nontrivial=True, line=fa.node.lineno)
+    if not ok:
+        ctx.report("R19i", fa, fa.node, f"listing {sorted(pa)} vs lookup {sorted(pb)}",
+                   f"get_named_ranges searches {sorted(pa)} while get_named_range searches {sorted(pb)}: a named range that the lookup finds (sheet-scoped, inside a table:table) is not "
+                   f"listed, so renaming its table does not update it and it keeps pointing to the old name")
+
+
 def r19h(ctx):
     """A short tuple means rows to a method that walks rows, columns to one that walks columns.
 
@@ -767,6 +800,7 @@ def run(ctx):
     r19f(ctx)
     r19g(ctx)
     r19h(ctx)
+    r19i(ctx)
     # "a range bounds the result on both sides": the expanding traversals decide which columns/cells a range returns (rule shared with C08)
     from .c08 import r08c
     r08c(ctx)
@@ -777,6 +811,9 @@ from ..selftest import Seed, unparse_seed  # noqa: E402
 _T = "src/odfdo/table.py"
 _R = "src/odfdo/row.py"
 SEEDS = [
+    Seed("get_named_ranges lists the document-wide named expressions only", "fault", "src/odfdo/element.py",
+         '        named_ranges = self.get_elements(\n            "descendant::table:named-expressions/table:named-range"\n        )\n        return named_ranges',
+         '        named_ranges = self.get_elements(\n            "table:named-expressions/table:named-range"\n        )\n        return named_ranges', "R19i"),
     Seed("iter_values resolves its area with the column translator", "fault", _T,
          "            x, y, z, t = self._translate_table_coordinates(coord)\n        else:\n            x = y = z = t = None\n        for row in self.traverse(start=y, end=t):\n            if z is None:\n                width = self.width",
          "            x, y, z, t = self._translate_column_coordinates(coord)\n        else:\n            x = y = z = t = None\n        for row in self.traverse(start=y, end=t):\n            if z is None:\n                width = self.width", "R19h"),
